@@ -30,7 +30,7 @@ class Check(Prop):
     ID = "C06"
     RULE = ("cases = (program, layout edit). Programs: generated from the Ruby-subset grammar (exact statement boundaries incl. bodies of "
             "class/def/if/unless/elsif/else/case-when/case-in/while/blocks) and golden corpus programs with a conservative boundary filter. Edits: insert "
-            "1-3 blank lines or comment-only lines at a boundary; widen a string literal by 1-3 embedded newlines; drop or add the final "
+            "1-3 blank lines or comment-only lines at a boundary; widen a string literal by 1-3 embedded newlines (raw, or as backslash-newline continuations); drop or add the final "
             "newline. Oracle: records of `ti -i` (diagnostics + hints; plain mode sampled too) of the edited program equal the base "
             "records with rows after the edit shifted by the number of added lines, compared as multisets; rows of the widened "
             "statement itself are not compared. Non-trivial = the base output has a record after the edit point (for the final-newline "
@@ -97,7 +97,7 @@ class Check(Prop):
                 cands = [i for i, l in enumerate(lines) if wide_literal(l)]
                 if cands:
                     r = cands[draw(st.integers(0, len(cands) - 1))]
-                    return {"src": src, "edit": {"type": "widen", "row": r + 1, "n": draw(st.integers(1, 3))}}
+                    return {"src": src, "edit": {"type": "widen", "row": r + 1, "n": draw(st.integers(1, 3)), "cont": draw(st.booleans())}}
             return {"src": src, "edit": {"type": "final-newline"}}
 
         @st.composite
@@ -132,7 +132,11 @@ class Check(Prop):
             m = wide_literal(l)
             lit = m.group(0)
             k = lit.index(" ")
-            lit2 = lit[:k] + "\n" * e["n"] + lit[k + 1:]
+            if e.get("cont"):
+                # backslash-newline continuation inside a double-quoted literal: the value keeps its blank, the literal spans more lines
+                lit2 = lit[:k] + " " + "\\\n" * e["n"] + lit[k + 1:]
+            else:
+                lit2 = lit[:k] + "\n" * e["n"] + lit[k + 1:]
             lines[r - 1] = l[:m.start()] + lit2 + l[m.end():]
             return "\n".join(lines), r + 1, e["n"], {r}, set(range(r, r + e["n"] + 1))
         raise ValueError(e["type"])
@@ -141,7 +145,7 @@ class Check(Prop):
         src = case["src"]
         e = case["edit"]
         key = run.sha(src, repr(sorted(e.items())))
-        labels = [e["type"], case.get("origin", "generated").split(":")[0]]
+        labels = [e["type"] + ("-continuation" if e.get("cont") else ""), case.get("origin", "generated").split(":")[0]]
         if e.get("ctx"):
             labels.append("in-" + e["ctx"])
         if e["type"] == "insert":
